@@ -145,6 +145,15 @@ func lockTraceOf(p *pkgInfo, fd *ast.FuncDecl, mutex, field string, calls []stri
 			}
 		case *ast.DeferStmt:
 			deferred[x.Call] = true
+			if fl, ok := x.Call.Fun.(*ast.FuncLit); ok {
+				// defer func() { x.Unlock() }(): the calls of the literal's body run at function exit
+				ast.Inspect(fl.Body, func(m ast.Node) bool {
+					if c, ok := m.(*ast.CallExpr); ok {
+						deferred[c] = true
+					}
+					return true
+				})
+			}
 		case *ast.CallExpr:
 			if se, ok := x.Fun.(*ast.SelectorExpr); ok {
 				tracked := false
